@@ -192,13 +192,14 @@ Fixpoint add_items (h : harvest) (l : list (cat * item)) : harvest * list item :
 (* a decoded transaction: items per container in aggregation order, and at most one package list *)
 Record txn := { t_items : list (cat * item); t_pkgs : option (list item) }.
 
-(* FlatTxn.AggregateInto: always records supportability metrics and the pid *)
-Definition aggregate (h : harvest) (t : txn) : harvest * list item :=
+(* FlatTxn.AggregateInto: always records supportability metrics and the pid.
+   Returns the harvest, the items refused or displaced at capacity, and the overwritten package list. *)
+Definition aggregate (h : harvest) (t : txn) : harvest * list item * list item :=
   let '(h1, d1) := add_items h (t_items t) in
   let h2 := set_flags h1 true true (h_haspkgs h1) in
   match t_pkgs t with
-  | None => (h2, d1)
-  | Some pk => (set_flags (set_bag h2 CPkgs pk) true true true, d1 ++ h_bag h2 CPkgs)  (* SetPhpPackages overwrites *)
+  | None => (h2, d1, [])
+  | Some pk => (set_flags (set_bag h2 CPkgs pk) true true true, d1, h_bag h2 CPkgs)  (* SetPhpPackages overwrites *)
   end.
 
 (* ------------------------------------------------------------------ applications, runs *)
@@ -449,10 +450,8 @@ Definition app_info (s : proc) (key : N) (dt : bool) (id : option N) : proc * li
              (s2, OutAppReply false SUnknown :: o)
        end.
 
-Fixpoint find_conn (id : nat) (l : list cattempt) : option cattempt :=
-  match l with [] => None | c :: r => if Nat.eqb (ca_id c) id then Some c else find_conn id r end.
-Definition remove_conn (id : nat) (l : list cattempt) : list cattempt :=
-  filter (fun c => negb (Nat.eqb (ca_id c) id)) l.
+Fixpoint remove_nth {A} (n : nat) (l : list A) : list A :=
+  match l, n with [], _ => [] | _ :: r, O => r | x :: r, S n' => x :: remove_nth n' r end.
 
 (* Processor.processConnectAttempt for a failed attempt *)
 Definition connect_failed (s : proc) (key : N) (f : option fail) : proc :=
@@ -483,26 +482,27 @@ Definition connect_ok (s : proc) (key : N) (host : N) (r : creply) : proc :=
       with_runs s2 (setN (cr_run r) ahid (p_runs s2))
   end.
 
-Definition pre_reply (s : proc) (att : nat) (o : pre_outcome) : proc * list out :=
-  match find_conn att (p_conns s) with
+(* the collector's answer to the n-th connect attempt in progress *)
+Definition pre_reply (s : proc) (n : nat) (o : pre_outcome) : proc * list out :=
+  match nth_error (p_conns s) n with
   | Some c =>
       match ca_stage c, o with
       | StPre, PreOk host =>
-          let cs := map (fun c' => if Nat.eqb (ca_id c') att then {| ca_id := att; ca_key := ca_key c; ca_stage := StConn host |} else c') (p_conns s) in
-          (with_conns s cs, [OutReq (mk_req att RConnect (ca_key c) host 0 0 [] 0 0 0 false 0)])
-      | StPre, PreFail f => (connect_failed (with_conns s (remove_conn att (p_conns s))) (ca_key c) (Some f), [])
-      | StPre, PreMalformed => (connect_failed (with_conns s (remove_conn att (p_conns s))) (ca_key c) None, [])
+          (with_conns s (set_nth n {| ca_id := ca_id c; ca_key := ca_key c; ca_stage := StConn host |} (p_conns s)),
+           [OutReq (mk_req (ca_id c) RConnect (ca_key c) host 0 0 [] 0 0 0 false 0)])
+      | StPre, PreFail f => (connect_failed (with_conns s (remove_nth n (p_conns s))) (ca_key c) (Some f), [])
+      | StPre, PreMalformed => (connect_failed (with_conns s (remove_nth n (p_conns s))) (ca_key c) None, [])
       | StConn _, _ => (s, [])
       end
   | None => (s, [])
   end.
 
-Definition conn_reply (s : proc) (att : nat) (o : conn_outcome) : proc * list out :=
-  match find_conn att (p_conns s) with
+Definition conn_reply (s : proc) (n : nat) (o : conn_outcome) : proc * list out :=
+  match nth_error (p_conns s) n with
   | Some c =>
       match ca_stage c with
       | StConn host =>
-          let s1 := with_conns s (remove_conn att (p_conns s)) in
+          let s1 := with_conns s (remove_nth n (p_conns s)) in
           match o with
           | ConnOk r => (connect_ok s1 (ca_key c) host r, [])
           | ConnFail f => (connect_failed s1 (ca_key c) (Some f), [])
@@ -520,25 +520,16 @@ Definition shutdown_run (s : proc) (run : N) : proc := with_runs s (removeN run 
 Definition txn_tags (t : txn) : list N :=
   map (fun ci => i_tag (snd ci)) (t_items t) ++ match t_pkgs t with Some pk => tags pk | None => [] end.
 
-Definition reason_of_drop (c : cat) : reason := RCapacity.
-
 (* Processor.processTxnData *)
 Definition txn_data (s : proc) (run : N) (t : txn) : proc * list out :=
   match lookupN run (p_runs s) with
   | None => (s, [])
   | Some ahid =>
       let ah := get_ah s ahid in
+      let '(h', refused, overwritten) := aggregate (ah_h ah) t in
       let s1 := put_obj s (ah_app ah) (set_activity (get_obj s (ah_app ah)) (p_now s)) in
-      let h0 := ah_h ah in
-      let '(h1, d1) := add_items h0 (t_items t) in
-      let h2 := set_flags h1 true true (h_haspkgs h1) in
-      let s2 := ghost_drop (ghost_offer s1 (txn_tags t)) RCapacity (tags d1) in
-      match t_pkgs t with
-      | None => (put_ah_h s2 ahid h2, [])
-      | Some pk =>
-          let old := h_bag h2 CPkgs in
-          (put_ah_h (ghost_drop s2 ROverwritten (tags old)) ahid (set_flags (set_bag h2 CPkgs pk) true true true), [])
-      end
+      (ghost_drop (ghost_drop (ghost_offer (put_ah_h s1 ahid h') (txn_tags t)) RCapacity (tags refused))
+                  ROverwritten (tags overwritten), [])
   end.
 
 (* ------------------------------------------------------------------ harvesting *)
@@ -633,6 +624,29 @@ Definition sort_reqs (l : list request) : list request := fold_left (fun acc q =
 Definition register (s : proc) (qs : list request) : proc :=
   ghost_sent (with_reqs s (p_reqs s ++ sort_reqs qs)) (concat (map (fun q => tags (rq_items q)) qs)).
 
+(* one event branch of harvestByType: guarded by its HarvestType bit and a non-zero limit, the container
+   is detached (sent if it is not empty) and replaced by a fresh one *)
+Definition event_step (ty : N) (caps : cat -> N) (e : emit_ctx)
+           (acc : proc * harvest * list request) (cb : cat * N) : proc * harvest * list request :=
+  let '(sa, ha, qa) := acc in
+  let '(c, bit) := cb in
+  if has_bits ty bit && negb (caps c =? 0)%N then
+    let '(sb, q) := emit_cat sa e c (h_bag ha c) (h_seen ha c) (h_failed ha c) (h_cap ha c) false in
+    (sb, reset_cat ha c (caps c), qa ++ q)
+  else acc.
+
+(* the default-data branch of harvestByType: final metrics, package filter, the five containers are
+   detached (sent when not empty) and replaced by fresh ones *)
+Definition default_stage (s : proc) (e : emit_ctx) (appi : nat) (h : harvest) (dflt : bool)
+  : proc * harvest * list request :=
+  if dflt then
+    let hf := final_metrics h in
+    let '(s1, hp) := filter_harvest_pkgs s appi hf in
+    let '(s2, qs) := emit_cats s1 e hp default_order in
+    let hr := set_flags (fold_left (fun hh c => reset_cat hh c (h_cap hh c)) default_order hp) false false false in
+    (s2, hr, qs)
+  else (s, h, []).
+
 (* harvestByType, non-blocking *)
 Definition harvest_by_type (s : proc) (ahid : nat) (ty : N) : proc * list out :=
   let ah := get_ah s ahid in
@@ -655,24 +669,9 @@ Definition harvest_by_type (s : proc) (ahid : nat) (ty : N) : proc * list out :=
     else
       (with_groups s4 (p_groups s4 ++ [{| g_id := grp; g_pending := length qs; g_usage := true; g_ctx := e |}]), map OutReq qs)
   else
-    (* default data *)
-    let '(s1, h1, qs1) :=
-      if has_bits ty HarvestDefaultData then
-        let hf := final_metrics h in
-        let '(s1, hp) := filter_harvest_pkgs s (ah_app ah) hf in
-        let '(s2, qs) := emit_cats s1 e hp default_order in
-        let hr := set_flags (fold_left (fun hh c => reset_cat hh c (h_cap hh c)) default_order hp) false false false in
-        (s2, hr, qs)
-      else (s, h, []) in
+    let '(s1, h1, qs1) := default_stage s e (ah_app ah) h (has_bits ty HarvestDefaultData) in
     (* event categories, each guarded by its bit and a non-zero limit *)
-    let '(s2, h2, qs2) :=
-      fold_left (fun acc cb =>
-                   let '(sa, ha, qa) := acc in
-                   let '(c, bit) := cb in
-                   if has_bits ty bit && negb (caps c =? 0)%N then
-                     let '(sb, q) := emit_cat sa e c (h_bag ha c) (h_seen ha c) (h_failed ha c) (h_cap ha c) false in
-                     (sb, reset_cat ha c (caps c), qa ++ q)
-                   else acc) event_order (s1, h1, qs1) in
+    let '(s2, h2, qs2) := fold_left (event_step ty caps e) event_order (s1, h1, qs1) in
     let s3 := register (put_ah_h s2 ahid h2) qs2 in
     let want_usage := has_bits ty HarvestDefaultData && negb skip_usage in
     if Nat.eqb (length qs2) 0 then
@@ -696,11 +695,6 @@ Definition tick (s : proc) (ahid : nat) (ty : N) : proc * list out :=
     else harvest_by_type s ahid ty.
 
 (* ------------------------------------------------------------------ replies to harvest requests *)
-Fixpoint find_req (id : nat) (l : list request) : option request :=
-  match l with [] => None | q :: r => if Nat.eqb (rq_id q) id then Some q else find_req id r end.
-Definition remove_req (id : nat) (l : list request) : list request :=
-  filter (fun q => negb (Nat.eqb (rq_id q) id)) l.
-
 Definition metric_limit : N := Z.to_N FailedMetricAttemptsLimit.
 Definition event_limit : N := Z.to_N FailedEventsAttemptsLimit.
 
@@ -709,7 +703,8 @@ Definition merge_failed (h : harvest) (c : cat) (q : request) : harvest * list i
   (* returns (harvest, refused by capacity, given up) *)
   match q.(rq_kind) with
   | RUsage =>
-      (set_flags (set_failed h CMetrics (N.max (h_failed h CMetrics) 1)) true (h_pids h) (h_haspkgs h), [], [])
+      (set_flags (set_failed h CMetrics (N.max (h_failed h CMetrics) 1)) true (h_pids h) (h_haspkgs h), [],
+       rq_items q)      (* a data usage payload carries no agent data: rq_items q = [] *)
   | _ =>
     if cat_eqb c CMetrics then
       let fails := (rq_failed q + 1)%N in
@@ -782,11 +777,12 @@ Definition harvest_error (s : proc) (q : request) (f : fail) : proc * list out :
 
 Definition add_usage (s : proc) : proc := with_ubuf s (Nat.min 25 (S (p_ubuf s))).
 
-Definition reply (s : proc) (id : nat) (o : outcome) : proc * list out :=
-  match find_req id (p_reqs s) with
+(* the collector's answer to the n-th outstanding request *)
+Definition reply (s : proc) (n : nat) (o : outcome) : proc * list out :=
+  match nth_error (p_reqs s) n with
   | None => (s, [])
   | Some q =>
-      let s0 := add_usage (with_reqs s (remove_req id (p_reqs s))) in
+      let s0 := add_usage (with_reqs s (remove_nth n (p_reqs s))) in
       let '(s1, o1) :=
         match o with
         | OOk => (ghost_ack s0 (tags (rq_items q)), [])
@@ -798,12 +794,16 @@ Definition reply (s : proc) (id : nat) (o : outcome) : proc * list out :=
       end
   end.
 
+Fixpoint find_index {A} (p : A -> bool) (l : list A) (i : nat) : option nat :=
+  match l with [] => None | x :: r => if p x then Some i else find_index p r (S i) end.
+
 (* ------------------------------------------------------------------ final flush *)
 (* CleanExit: every connected run is harvested completely, request by request, each waiting for its
    answer; a failed final request is given up (since the fix it is not handed to the stopped loop). *)
 Definition flush_run (outs : N -> cat -> outcome) (acc : proc * list out) (ra : N * nat) : proc * list out :=
   let '(s, o) := acc in
   let ahid := snd ra in
+  if Nat.leb (length (p_ahs s)) ahid then acc else      (* never the case: the run table only holds valid indices *)
   let ah := get_ah s ahid in
   let a := get_obj s (ah_app ah) in
   if inactive a (p_now s) then
@@ -851,11 +851,11 @@ Definition step (s : proc) (o : op) : proc * list out :=
   else match o with
        | OAppInfo key dt id => app_info s key dt id
        | OTxn run t => txn_data s run t
-       | OPreReply n po => match nth_error (p_conns s) n with Some c => pre_reply s (ca_id c) po | None => (s, []) end
-       | OConnReply n co => match nth_error (p_conns s) n with Some c => conn_reply s (ca_id c) co | None => (s, []) end
+       | OPreReply n po => pre_reply s n po
+       | OConnReply n co => conn_reply s n co
        | OTick ah ty => tick s ah ty
-       | OReply n oc => match nth_error (p_reqs s) n with Some q => reply s (rq_id q) oc | None => (s, []) end
-       | OReplyCat c oc => match find (req_is c) (p_reqs s) with Some q => reply s (rq_id q) oc | None => (s, []) end
+       | OReply n oc => reply s n oc
+       | OReplyCat c oc => match find_index (req_is c) (p_reqs s) 0 with Some n => reply s n oc | None => (s, []) end
        | OAdvance dt => (with_now s (p_now s + Z.max 0 dt), [])
        | OCleanExit outs => clean_exit s outs
        end.
